@@ -48,7 +48,8 @@ partial def loop (h : IO.FS.Stream) (s : Sys) (lineNo bad : Nat) : IO Nat := do
     let (s', o) := step s a
     let r := obsStr o
     let d := dump s'
-    if r ≠ lr[1]! || d ≠ parts[1]! then
+    -- `*` = this step is not observable from outside (the real call is one blocking unit)
+    if (lr[1]! ≠ "*" && r ≠ lr[1]!) || (parts[1]! ≠ "*" && d ≠ parts[1]!) then
       IO.println s!"MISMATCH line {lineNo}: {l}\n   model: {r} | {d}"
       loop h s' (lineNo + 1) (bad + 1)
     else loop h s' (lineNo + 1) bad
